@@ -14,7 +14,7 @@ P = {
    note="Trusted: Nat oracle; cw-multi-test as the chain model (atomicity, bank, cw20-base). Known finding KF-SWAP-ROUNDUP is excluded by its root-cause signature only and reported as KNOWN-FINDING.",
    tech=PBT + ", exact rational oracle, stateful history generation, known-finding signature exclusion", ref="C01"),
  "C02": dict(
-   text="For every pair kind and after a generated history, one swap attempt is generated from the full cross product (entry point x delivered asset x named asset x named amount x attached funds x receiver); on success the complete-ledger diff must equal the reference settlement (pair +offer of the named asset delivered by the trader, pair -return of the other asset, receiver +return) and agree with the response attributes; on failure the whole chain state must be byte-identical.",
+   text="For every pair kind and after a generated history, one swap attempt is generated from the full cross product (entry point x delivered asset x named asset x named amount x attached funds x receiver); on success the complete-ledger diff must equal the reference settlement (pair +offer of the named asset delivered by the trader, pair -return of the other asset, receiver +return) and agree with the response attributes; on failure the whole chain state must be byte-identical. A second suite judges swaps reached through the router (1..4 hops, stray router balances, a further coin attached to the entry call): per pair, the reserve movements of the transaction must equal the pair's own swap reports.",
    note="Trusted: cw-multi-test chain model, cw20-base as the token implementation; receivers are user accounts.",
    tech=PBT + ", reference-model ledger oracle over adversarial message shapes, whole-state equality on rejection", ref="C02"),
  "C03": dict(
@@ -70,7 +70,7 @@ P = {
    note="Trusted: Nat oracle.",
    tech=PBT + ", exact rational two-sided guard oracle", ref="C15"),
  "C16": dict(
-   text="pair_key is called directly on generated pairs of asset sets: equal keys iff equal unordered sets. Histories of CreatePair calls over native denoms with shared prefixes/varying lengths, cw20 tokens, unregistered denoms and non-token addresses are executed against a reference registry keyed by unordered asset identity: lookups in both orders agree with the model and with the pair's self-description, distinct sets never alias, duplicate/identical/invalid creations fail with whole-state equality, recorded decimals are the true ones.",
+   text="pair_key is called directly on generated pairs of asset sets: equal keys iff equal unordered sets. Histories of CreatePair calls over native denoms with shared prefixes/varying lengths, cw20 tokens, unregistered denoms and non-token addresses are executed against a reference registry keyed by unordered asset identity: lookups in both orders agree with the model and with the pair's self-description, distinct sets never alias, duplicate/identical/invalid creations fail with whole-state equality, recorded decimals are the true ones (also when the owner re-registers a denom's decimals between creations).",
    note="Trusted: cw-multi-test chain model.",
    tech=PBT + ", model-based testing against a reference registry", ref="C16"),
  "C17": dict(
